@@ -8,6 +8,7 @@ import fcntl
 import hashlib
 import json
 import os
+import re
 import subprocess
 import sys
 import time
@@ -53,6 +54,38 @@ def _moved_free_fns(fns_by_crate):
             name = m.rsplit("::", 1)[1]
             cands = [e for e in extra if e.rsplit("::", 1)[1] == name and e.split("::", 1)[0] == m.split("::", 1)[0]]
             if len(cands) == 1 and cands[0] not in out:
+                out[cands[0]] = m
+    return out
+
+
+def _moved_adts(crates_json):
+    """{path in this tree: path in the inventory} for types (structs / enums with at least one impl on the reference tree) whose
+    inventory path is gone while exactly one type of the same crate and the same name exists at a path the inventory does not know"""
+    try:
+        with open(os.path.join(VERIF, "mb2rules", "inventory.json")) as fh:
+            inv = json.load(fh)["functions"]
+    except Exception:
+        return {}
+    ref = {}
+    for x in inv:
+        parts = x.split("|")
+        if len(parts) >= 4 and parts[1] and "<" not in parts[1] and " " not in parts[1] and "::" in parts[1] and parts[1].split("::", 1)[0] == parts[0]:
+            ref.setdefault(parts[0], set()).add(parts[1])
+    out = {}
+    for c, j in crates_json.items():
+        here = {}
+        for k, a in j["adts"].items():
+            if k.startswith("generic ") or a.get("crate") != c or not a.get("path") or "<" in a["path"]:
+                continue
+            here[a["path"]] = a
+        refs = ref.get(c, set())
+        missing = [p_ for p_ in refs if p_ not in here]
+        extra = [p_ for p_ in here if p_ not in refs]
+        for m in missing:
+            name = m.rsplit("::", 1)[1]
+            cands = [e for e in extra if e.rsplit("::", 1)[1] == name]
+            # the name must identify the type on both sides: one candidate here, one type of that name on the reference tree
+            if len(cands) == 1 and sum(1 for r_ in refs if r_.rsplit("::", 1)[1] == name) == 1 and cands[0] not in out:
                 out[cands[0]] = m
     return out
 
@@ -198,12 +231,21 @@ class Facts:
                 texts[c] = fh.read()
         # a free function of the reference tree that was moved to another module of its crate (and, if public, re-exported) is
         # still that function: its new path is rewritten to the path the rules and the inventory know it by
-        moved = _moved_free_fns({c: json.loads(texts[c])["fns"] for c in CRATES})
+        parsed = {c: json.loads(texts[c]) for c in CRATES}
+        # likewise a type moved to another module of its crate: every path through it (the type, its methods, its impls)
+        moved_t = _moved_adts(parsed)
+        if moved_t:
+            for c in CRATES:
+                for new_p, old_p in sorted(moved_t.items(), key=lambda kv: -len(kv[0])):
+                    texts[c] = re.sub(re.escape(new_p) + r"(?![A-Za-z0-9_])", lambda m_: old_p, texts[c])
+            parsed = {c: json.loads(texts[c]) for c in CRATES}
+        moved = _moved_free_fns({c: parsed[c]["fns"] for c in CRATES})
         for c in CRATES:
             t = texts[c]
             for new_p, old_p in moved.items():
                 t = t.replace(new_p, old_p)
-            self.crates[c] = json.loads(t)
+            self.crates[c] = json.loads(t) if moved else parsed[c]
+        moved = dict(moved, **moved_t)
         self.moved = moved
         self.rustc = self.crates["multiboot2"]["rustc"]
         self.target = self.crates["multiboot2"]["target"]
